@@ -271,32 +271,53 @@ def dynStage (sh : Sh p) (bad : Nat → Bool) (rewrite : Bool) (w0 : FW p) (s0 :
     updated := dynRuns && !w0.tcp.changed && !hs0.isChanged && backendUpdated s0 bad w4.run.back w0.pcD && !rewrite
     bchg := backChanged s0 }
 
-/-- stages 1 to 5; `Except.error` = the update returned at a failed write -/
-def pre (o : Opt) (sh : Sh p) (f : Fault) (w : FW p) : Except (Res p) (Mid p) :=
-  -- `rewrite := i.rewriteOwed; i.rewriteOwed = true; if rewrite { i.config.ForceRewrite() }`
-  let rewrite := o.repaired && w.rewriteOwed
-  let s0 := if rewrite then allShards sh (shrink sh w.g.w.store) else shrink sh w.g.w.store
-  let hs0 : HStore p := if rewrite then { w.h.shrink with mapsNil := true } else w.h.shrink
-  let w : FW p := { shrinkFlags w with rewriteOwed := true }
-  -- 1  guard `!tcpservices.Changed() && !rewriteAll`; without a tcp service nothing is written
-  let tcpWrites := w.tcp.changed || (rewrite && w.tcp.want != 0)
-  if tcpWrites && f == .tcpMaps then .error { w := commitAll w s0 hs0, err := true } else
-  let w1 : FW p := if tcpWrites then { w with tcp := { w.tcp with map := w.tcp.want } } else w
-  -- 2
-  if !hSkip hs0 && f == .frontMaps then .error { w := commitAll w1 s0 hs0, err := true } else
-  let hs1 := hWrite hs0
-  let w1 : FW p := { w1 with h := hs1 }
-  -- 3  guard `!backends.Changed() && !rewriteAll`; ItemsAdd, or Items when everything is rewritten
-  let bchg := backChanged s0
-  let vis : Fin p → Option Content := if rewrite then s0.items else s0.add
-  let w2 : FW p := if bchg || rewrite then mapFlags vis w1 else w1
-  if (bchg || rewrite) && bmFiles o vis && f == .backMaps then .error { w := commitAll w2 s0 hs1, err := true } else
-  let w3 : FW p := if bchg || rewrite then bmWrite o vis w2 else w2
-  -- 4
-  if w.tcp.want != 0 && f == .crtLists then .error { w := commitAll w3 s0 hs1, err := true } else
-  let w4 : FW p := if w.tcp.want != 0 then { w3 with tcp := { w3.tcp with crt := w.tcp.want } } else w3
+/-- the stores the update works on: after Shrink, and after `ForceRewrite()` (`AllShardsChanged`,
+`frontend.Maps = nil`) when a rewrite is owed -/
+def s0Of (sh : Sh p) (rw : Bool) (w : FW p) : Store p :=
+  if rw then allShards sh (shrink sh w.g.w.store) else shrink sh w.g.w.store
+def hs0Of (rw : Bool) (w : FW p) : HStore p := if rw then { w.h.shrink with mapsNil := true } else w.h.shrink
+/-- `i.rewriteOwed = true` until the update is past writeConfig -/
+def w0Of (w : FW p) : FW p := { shrinkFlags w with rewriteOwed := true }
+
+/-- 1  guard `!tcpservices.Changed() && !rewriteAll`; without a tcp service nothing is written -/
+def tcpWrites (rw : Bool) (w : FW p) : Bool := w.tcp.changed || (rw && w.tcp.want != 0)
+def tcpStage (rw : Bool) (w : FW p) : FW p :=
+  if tcpWrites rw w then { w with tcp := { w.tcp with map := w.tcp.want } } else w
+/-- 3  guard `!backends.Changed() && !rewriteAll`; ItemsAdd, or Items when everything is rewritten -/
+def visOf (rw : Bool) (s0 : Store p) : Fin p → Option Content := if rw then s0.items else s0.add
+def flagStage (rw : Bool) (s0 : Store p) (w : FW p) : FW p :=
+  if backChanged s0 || rw then mapFlags (visOf rw s0) w else w
+def bmStage (o : Opt) (rw : Bool) (s0 : Store p) (w : FW p) : FW p :=
+  if backChanged s0 || rw then bmWrite o (visOf rw s0) w else w
+/-- 4 -/
+def crtStage (w : FW p) : FW p := if w.tcp.want != 0 then { w with tcp := { w.tcp with crt := w.tcp.want } } else w
+
+def pre4 (o : Opt) (sh : Sh p) (f : Fault) (rw : Bool) (w0 : FW p) (s0 : Store p) (hs0 hs1 : HStore p) (w3 : FW p) :
+    Except (Res p) (Mid p) :=
+  if w3.tcp.want != 0 && f == .crtLists then .error { w := commitAll w3 s0 hs1, err := true } else
   -- 5  (`if rewrite { updated = false }` right after `updater.update()`)
-  .ok (dynStage sh f.bad rewrite w s0 hs0 hs1 w4)
+  .ok (dynStage sh f.bad rw w0 s0 hs0 hs1 (crtStage w3))
+
+def pre3 (o : Opt) (sh : Sh p) (f : Fault) (rw : Bool) (w0 : FW p) (s0 : Store p) (hs0 hs1 : HStore p) (w1 : FW p) :
+    Except (Res p) (Mid p) :=
+  -- (the loop over the visited backends calls NeedACL() and sets PathsMap before the first file is written)
+  if (backChanged s0 || rw) && bmFiles o (visOf rw s0) && f == .backMaps then
+    .error { w := commitAll (flagStage rw s0 w1) s0 hs1, err := true }
+  else pre4 o sh f rw w0 s0 hs0 hs1 (bmStage o rw s0 (flagStage rw s0 w1))
+
+def pre2 (o : Opt) (sh : Sh p) (f : Fault) (rw : Bool) (w0 : FW p) (s0 : Store p) (hs0 : HStore p) (w1 : FW p) :
+    Except (Res p) (Mid p) :=
+  if !hSkip hs0 && f == .frontMaps then .error { w := commitAll w1 s0 hs0, err := true } else
+  pre3 o sh f rw w0 s0 hs0 (hWrite hs0) { w1 with h := hWrite hs0 }
+
+/-- stages 1 to 5; `Except.error` = the update returned at a failed write.
+`rewrite := i.rewriteOwed; i.rewriteOwed = true; if rewrite { i.config.ForceRewrite() }` -/
+def pre (o : Opt) (sh : Sh p) (f : Fault) (w : FW p) : Except (Res p) (Mid p) :=
+  if tcpWrites (o.repaired && w.rewriteOwed) (w0Of w) && f == .tcpMaps then
+    .error { w := commitAll (w0Of w) (s0Of sh (o.repaired && w.rewriteOwed) w) (hs0Of (o.repaired && w.rewriteOwed) w)
+             err := true }
+  else pre2 o sh f (o.repaired && w.rewriteOwed) (w0Of w) (s0Of sh (o.repaired && w.rewriteOwed) w)
+    (hs0Of (o.repaired && w.rewriteOwed) w) (tcpStage (o.repaired && w.rewriteOwed) (w0Of w))
 
 /-- the template dereferences `$backend.PathsMap` of every backend that needs ACLs: rendering a backend
 whose object never went through WriteBackendMaps fails (nil pointer inside the template) -/
